@@ -8,7 +8,7 @@ patch=$V/seeded/$id/patch.diff
 cd $V
 (cd $R && git apply --check $patch) || { echo "patch does not apply"; exit 2; }
 (cd $R && git apply $patch)
-trap '(cd $R && git apply -R $patch)' EXIT
+trap '(cd $R && git apply -R $patch); git -C $V checkout -- evidence 2>/dev/null' EXIT
 for p in "$@"; do
   echo "=== $id under $p"
   rm -rf $V/out/$p
